@@ -39,6 +39,7 @@ func c09Gen(seed uint64, tier string) any {
 	o.Macros = r.Chance(1, 3)
 	o.BigNums = r.Chance(1, 10)
 	o.RandMeth = r.Chance(1, 4)
+	o.EdgeFloats = o.Floats && r.Chance(1, 2)
 	g := NewProgGen(r.Fork(), o)
 	n := r.Range(3, 8)
 	sc := &C09Scenario{GlobalSeed: r.U64(), Cfg: cfg, StaleAt: -1}
@@ -59,7 +60,7 @@ func c09Gen(seed uint64, tier string) any {
 	}
 	if r.Chance(1, 5) {
 		sc.Stmts = append(sc.Stmts, Pick(r, []string{
-			"cyc = [1]; cyc.push(cyc); 1", "cyd = {'k':1}; cyd.me = cyd; 2", "ff2 = 1.0 / 0", "&cc = 1; &cc.me = cc; 3", "nn = 2 ^ 9999.5", "inf2 = 10.0 ^ 400",
+			"nz = -0.0; nzs = [nz, 0.0 * -1, {'z': -0.4 * 0}]; &nzc = this.z; &nzc.z = -0.0; nz", "tiny = 2.0 ^ -1074; big = 2.0 ^ 1023 * 1.9; edge = [2.0 ^ 63, -(2.0 ^ 63), 2.0 ^ 53 + 1, 0.1 + 0.2]; 1", "cyc = [1]; cyc.push(cyc); 1", "cyd = {'k':1}; cyd.me = cyd; 2", "ff2 = 1.0 / 0", "&cc = 1; &cc.me = cc; 3", "nn = 2 ^ 9999.5", "inf2 = 10.0 ^ 400",
 		}))
 		sc.Stmts = append(sc.Stmts, g.followUp(r))
 	}
